@@ -158,6 +158,29 @@ class Ctx:
         self.extra.setdefault("negative_configs_refuted", []).append({"cfg": cfg, "what": what})
         return r
 
+    def apalache_inductive(self, module, cinit, init, indinv, timeout=600):
+        """Inductive invariant with Apalache: Init => IndInv (length 0), IndInv /\\ Next => IndInv' (length 1).
+        An extra on top of TLC; failure to prove is an infrastructure error, never a verdict on the code."""
+        d = self._spec_copy(SPECS)
+        outd = os.path.join(self.scratch, "apalache-out")
+        res = []
+        for (i, n) in ((init, 0), (indinv, 1)):
+            cmd = ["apalache-mc", "check", "--out-dir=" + outd, "--cinit=" + cinit, "--init=" + i, "--inv=" + indinv,
+                   "--length=%d" % n, module + ".tla"]
+            t = time.time()
+            try:
+                p = subprocess.run(cmd, cwd=d, stdout=subprocess.PIPE, stderr=subprocess.STDOUT, timeout=timeout, text=True)
+            except subprocess.TimeoutExpired:
+                raise Infra("apalache timeout on %s" % module)
+            ok = "The outcome is: NoError" in p.stdout
+            res.append(ok)
+            log("  [apalache] %s --init=%s --inv=%s --length=%d: %s (%.1fs)" % (module, i, indinv, n, "NoError" if ok else "FAILED", time.time() - t))
+            if not ok:
+                sys.stdout.write(p.stdout[-3000:])
+                raise Infra("apalache could not establish the inductive invariant of %s" % module)
+        self.extra["apalache_inductive_invariant"] = {"module": module, "invariant": indinv, "initiation": res[0], "consecution": res[1]}
+        self.checker_cmds.append("apalache-mc check --cinit=%s --init=%s|%s --inv=%s --length=0|1 %s.tla" % (cinit, init, indinv, indinv, module))
+
     def tlc_generate(self, family, module, cfg, workers=4, args=(), timeout=600, env=None, heap="4g"):
         """Behaviour generation (U2): the Gen config prints JSON scenarios with
         PrintT(<<"SCN", ToJson(...)>>); returns the list of decoded objects."""
